@@ -14,6 +14,9 @@ open XotModel.Props
 #print axioms C15_serialises
 #print axioms C15_serialises_root
 #print axioms C15_serialises_call_node
+#print axioms C15_serialises_inside
+#print axioms C15_serialises_inside_only_elements_needed
+#print axioms C15_serialises_everywhere
 #print axioms C15_serialises_unique_needed
 #print axioms C15_representable
 #print axioms C15_representable_fragment
